@@ -459,6 +459,7 @@ class RunBundler:
                 data=data,
                 timestamps=timestamps,
             )
+            self._commit_sequence_counter(name)
             self.emit_sync(DocumentNames.event, doc)
 
         self._monitor_params[obj] = emit_event, kwargs
@@ -479,7 +480,14 @@ class RunBundler:
                 timestamps={"interruption": ttime.time()},
             )
             self._interruptions_counter += 1
+            self._commit_sequence_counter("interruptions")
             self.emit_sync(DocumentNames.event, doc)
+
+    def _commit_sequence_counter(self, stream_name):
+        # Events that are never re-taken after a rewind (interruption records, monitor updates,
+        # collected data) must keep their seq_nums: make rewind() roll this stream back to here.
+        if stream_name in self._sequence_counters:
+            self._sequence_counters_copy[stream_name] = self._sequence_counters[stream_name]
 
     def rewind(self):
         self._sequence_counters.clear()
@@ -1005,6 +1013,21 @@ class RunBundler:
         return payload
 
     async def collect(self, msg: Msg):
+        """
+        Collect data cached by a flyer and emit documents.
+
+        See :meth:`_collect`.  What has been collected is never re-taken after a rewind, so the
+        seq_nums used up here are kept.
+        """
+        counters_before = dict(self._sequence_counters)
+        try:
+            return await self._collect(msg)
+        finally:
+            for stream_name, counter in self._sequence_counters.items():
+                if counters_before.get(stream_name) != counter:
+                    self._commit_sequence_counter(stream_name)
+
+    async def _collect(self, msg: Msg):
         """
         Collect data cached by a flyer and emit documents.
 
